@@ -122,6 +122,26 @@ def run(ctx):
             out = emit(ctx, eng, copy.deepcopy(d), next_opts(), ("built", "loaded", "loaded+comments")[mode])
         if out and len(res.samples) < 2 and 150 < len(out) < 700:
             res.sample({"options": engine.opt_key(osets[0]), "text": out})
+    # objects whose simple keywords are all SHORT while they also hold CONFIG lines, key-value blocks, PROJECTION / PATTERN / POINTS or
+    # child blocks: none of those names takes part in "the longest simple keyword" of the alignment rule
+    containers = set(vocab.kv_keys()) | {"config", "projection", "pattern", "points"}
+    for ti, t in enumerate(vocab.object_types()):
+        if not ctx.mine(ti):
+            continue
+        slots = set(vocab.child_slots(t))
+        for L in (3, 4, 5, 6, 8):
+            skip = {k for k in vocab.props(t) if len(k) > L and k not in containers and k not in slots}
+            for rep in range(2):
+                nd = gen.gen_node(r, t, gen.GenOpts(gated=ctx.gated, p_key=0.7, p_child=0.6, dup=0.0, max_objects=4, skip_keys=skip))
+                if not any(it.kind != "block" and it.key not in containers for it in nd.items):
+                    continue
+                res.count("short_keyword_objects")
+                d = expect.build_doc([nd], edits.mkdict)
+                for ind in (0, 1, 2, 3, 5, 6):
+                    o = dict(next_opts(), align_values=True, indent=ind)
+                    if o["newlinechar"] == " ":
+                        o["newlinechar"] = "\n"
+                    emit(ctx, eng, copy.deepcopy(d), o, "short-keywords", {"type": t, "longest": L})
     # several roots in one document (an include fragment), key-value blocks among them: METADATA ... END CLASS ... END
     for j in range(ctx.n(160, 2400)):
         parts = []
